@@ -27,6 +27,10 @@ package frontend
 //@   ensures stable(result)
 //@   ensures len(in) == 0 ==> den(result) == fmul(den(i1), den(i2))
 //@   ensures len(in) == 1 ==> den(result) == fmul(fmul(den(i1), den(i2)), den(in[0]))
+//@ contract iface API.MulAcc
+//@   pure
+//@   ensures stable(result)
+//@   ensures den(result) == fadd(den(a), fmul(den(b), den(c)))
 //@ contract iface API.DivUnchecked
 //@   pure
 //@   ensures stable(result)
